@@ -658,9 +658,14 @@ def group_autoids_unique(n_before: int, explicit) -> bool:
         try:
             g.allocate_id(s)
         except ValueError:
-            # only legitimate when the automatic id is already taken by a live member
+            # legitimate when the automatic id is already taken by a live member, or an explicit id equals a live member's
             if s.id is not None:
-                return False
+                taken = False
+                for gw in live:
+                    if gw.id == s.id:
+                        taken = True
+                if not taken:
+                    return False
             continue
         if not s.id:
             return False
@@ -1699,3 +1704,75 @@ def channel_id_roundtrip_ok(cid, nested: bool) -> bool:
     again = ch_loads(gb.loads_internal, gb.dumps_internal(ch), B)
     ch.gateway = None
     return again is g0
+
+
+
+# ---------------------------------------------------------------------------------------
+# C05 (b): a failing makegateway leaves no process behind
+# ---------------------------------------------------------------------------------------
+
+class RecordedProcessIO:
+    """stands for Popen2IOMaster: creating it starts a local child process"""
+
+    def __init__(self, log):
+        self.rec = {"killed": False, "waited": False}
+        log.append(self.rec)
+        self.execmodel = FakeExecModel()
+
+    def kill(self):
+        self.rec["killed"] = True
+
+    def wait(self):
+        self.rec["waited"] = True
+        return 0
+
+    def close_write(self):
+        pass
+
+
+def makegateway_leaves_no_process(live_ids, new_id, explicit: bool, kind: int) -> bool:
+    """Group.makegateway with create_io / bootstrap replaced by recording stubs.  Whatever happens, a call that
+    raises must not leave a started process un-killed; a call that succeeds registers a gateway with a unique id."""
+    import execnet.multi as multi
+    from execnet.multi import Group
+
+    log = []
+    saved = (multi.gateway_io.create_io, multi.gateway_bootstrap.bootstrap)
+
+    class GW:
+        def __init__(self, io, spec):
+            self._io, self.spec, self.id = io, spec, spec.id
+
+        def remote_exec(self, *a, **k):
+            raise AssertionError("not expected in this harness")
+
+    multi.gateway_io.create_io = lambda spec, execmodel: RecordedProcessIO(log)
+    multi.gateway_bootstrap.bootstrap = lambda io, spec: GW(io, spec)
+    try:
+        g = Group()
+        for i in live_ids:
+            if i:
+                already = False
+                for m in g:
+                    if m.id == i:
+                        already = True
+                if not already:
+                    g._register(FakeGateway(i))
+        n_live = len(g)
+        before = len(log)
+        text = ("popen", "ssh=somehost", "popen//python=py")[kind] + ("//id=" + new_id if explicit else "")
+        try:
+            gw = g.makegateway(text)
+        except Exception:
+            for rec in log[before:]:
+                if not rec["killed"]:
+                    return False        # a child process was started and is left behind
+            return len(g) == n_live
+        ids = [m.id for m in g]
+        for a in range(len(ids)):
+            for b in range(a + 1, len(ids)):
+                if ids[a] == ids[b]:
+                    return False
+        return len(g) == n_live + 1 and g[gw.id] is gw and len(log) == before + 1
+    finally:
+        multi.gateway_io.create_io, multi.gateway_bootstrap.bootstrap = saved
